@@ -90,8 +90,17 @@ def run(ctx: core.Ctx) -> core.Result:
     scns = [Crowd(1, 2), Crowd(2, 3), Crowd(1, 2, stagger=0.301), Crowd(1, 1), Crowd(2, 2)]
     if not ctx.quick:
         scns += [Crowd(1, 3), Crowd(2, 4), Crowd(2, 3, stagger=0.15)]
-    D = ctx.pick(1, 2)
+    D = 1
     res = explore.explore_family(scns, D=D, seed=ctx.seed)
+    deep = []
+    if not ctx.quick:
+        # two deviations: only for the smallest crowd (limit 1, two requestors) - with three or four
+        # requestors the number of schedules with two deviations is in the tens of millions
+        deep = [Crowd(1, 2), Crowd(1, 2, stagger=0.301)]
+        res = list(res) + list(explore.explore_family(deep, D=2, seed=ctx.seed))
+        for d_ in deep:
+            d_.name += ",D=2"
+        scns = scns + deep
     viol, seen = [], set()
     tot = {"executions": 0, "steps": 0, "decisions": 0}
     outcomes = {}
@@ -109,6 +118,7 @@ def run(ctx: core.Ctx) -> core.Result:
         "transitions": tot["decisions"],
         "traces_validated_against_impl": tot["executions"],
         "deviation_bound_completed": D,
+        "deviation_bound_smallest_crowd": 2 if deep else 1,
         "scenarios": [s_.name for s_ in scns],
         "distinct_outcomes": sum(len(v) for v in outcomes.values()),
         "samples": [{"scenario": k, "peak_and_results": [list(map(str, x)) for x in v[:3]]} for k, v in list(outcomes.items())[:3]],
